@@ -43,7 +43,7 @@ func init() {
 		Run: run,
 		Floors: func(t string) map[string]int64 {
 			return map[string]int64{"spelling.esri": 5000, "spelling.ogc": 1000, "section_order.unit_before_parameters": 1000, "unit.foot": 1000, "unit.us_foot": 1000, "towgs84.3": 1000, "towgs84.7": 1000, "towgs84.none": 1000,
-				"proj.merc": 300, "proj.lcc": 300, "proj.aea": 300, "proj.eqdc": 300, "proj.tmerc": 300, "proj.longlat": 300, "registry.names": 100, "registry.equal_pairs": 500, "registry.unequal_pairs": 300, "registry.prj_files": 50, "twin.negated": 2000, "names.short_empty_or_unusual": 1000, "wkt.authority_on_nested_objects": 1000, "twin.nudged": 1000}
+				"proj.merc": 300, "proj.lcc": 300, "proj.aea": 300, "proj.eqdc": 300, "proj.tmerc": 300, "proj.longlat": 300, "registry.names": 100, "registry.equal_pairs": 500, "registry.unequal_pairs": 300, "registry.prj_files": 50, "twin.negated": 2000, "names.short_empty_or_unusual": 1000, "wkt.authority_on_nested_objects": 1000, "unit.other_named_factor": 1000, "twin.nudged": 1000}
 		},
 	})
 }
@@ -61,6 +61,7 @@ type sys struct {
 	ogc          bool
 	unitFirst    bool
 	pretty       bool
+	otherUnit       bool // a linear unit other than metre / foot / US survey foot
 	nestedAuthority bool // GDAL style: AUTHORITY nodes on the nested objects (GEOGCS = EPSG:4326)
 	oddNames     bool // a WKT name other than the usual ESRI-style one (short, empty, bare prefix, blanks, non-ASCII)
 }
@@ -110,7 +111,17 @@ func genSys(r *crsgen.R) *sys {
 	s.geoWKT = geog
 	s.geo4 = "+proj=longlat" + ell4 + tw4 + " +no_defs"
 	unitWKT, unit4 := `UNIT["Meter",1.0]`, ""
-	switch r.Intn(4) {
+	switch r.Intn(5) {
+	case 4:
+		// other units, named in WKT and given by their factor in PROJ.4: historical feet whose
+		// factor is NOT the international or the US survey one, links, kilometres, anything
+		u := []struct {
+			name string
+			f    float64
+		}{{"Clarke's foot", 0.3047972654}, {"Gold Coast foot", 0.3047997101815088}, {"Indian foot", 0.3047995}, {"Sears_foot", 0.30479947153867626},
+			{"British foot (1936)", 0.3048007491}, {"US survey feet (rounded)", 0.3048006}, {"Clarke's link", 0.201166195164}, {"kilometre", 1000}, {"Verif unit", r.Range(0.1, 5)}}[r.Intn(9)]
+		unitWKT, unit4, s.toMeter = `UNIT["`+u.name+`",`+F(u.f)+`]`, " +to_meter="+F(u.f), u.f
+		s.otherUnit = true
 	case 0:
 		unitWKT, unit4, s.toMeter = `UNIT["Foot",0.3048]`, " +units=ft", 0.3048
 	case 1:
@@ -309,6 +320,9 @@ func runSpelling(c *core.Ctx) {
 	}
 	if s.nestedAuthority {
 		c.Count("wkt.authority_on_nested_objects")
+	}
+	if s.otherUnit {
+		c.Count("unit.other_named_factor")
 	}
 	switch s.towgs {
 	case 0:
